@@ -298,9 +298,23 @@ pub fn compute_block(cfg: StructCfg) -> impl Strategy<Value = Vec<MOp>> {
         3 => (0i64..3, word()).prop_map(|(ix, w)| vec![p(ix), LODS, p(1), ALOC, STO, p(w % 1000), p(ix), STOS]),
         // consume the index and an inherited word, then restore the depth with other values
         1 => (word()).prop_map(|w| vec![POP, POP, p(w % 100), p(5)]),
-        // read parent memory
-        2 => (0..MEM_BASE).prop_map(|a| vec![p(a), LODP, POP]),
-        2 => (0..MEM_BASE - 4, 0i64..4).prop_map(|(a, n)| vec![p(a), p(n), LODPR, p(n), DROP]),
+        // read parent memory (the value read is kept in the child's own memory, so a stale or foreign snapshot shows)
+        2 => (0..MEM_BASE).prop_map(|a| vec![p(a), LODP, p(1), ALOC, STO]),
+        1 => (0..MEM_BASE).prop_map(|a| vec![p(a), LODP, POP]),
+        2 => (0..MEM_BASE - 4).prop_map(|a| vec![p(a), p(2), LODPR, BOR, p(1), ALOC, STO]),
+        1 => (0..MEM_BASE - 4, 0i64..4).prop_map(|(a, n)| vec![p(a), p(n), LODPR, p(n), DROP]),
+        // some indices leave their own repeat loop early (halt / compute end from inside the body): whatever repeat
+        // state such a child leaves behind must not reach its siblings
+        2 => (2i64..4, 0i64..2, 2i64..5, 0i64..2, any::<bool>()).prop_map(|(k, r, n, up, halt)| {
+            let mut v = vec![p(n), p(up), REP, DUP, p(k), MOD, p(r), EQ];
+            if halt {
+                v.push(HLTIF);
+            } else {
+                v.extend([NOT, p(2), SWAP, JMPIF, COME]);
+            }
+            v.push(REPE);
+            v
+        }),
         // index dependent skip of a block
         5 => (2i64..4, 0i64..2, leaf_block(child_cfg)).prop_map(|(k, r, b)| {
             // if i mod k == r skip b
